@@ -2,29 +2,11 @@
     writes for a conformant value is valid against it, and for documents in declared order
     schema validity and soft validation agree. *)
 From Coq Require Import ZArith List Bool Lia ZifyBool Btauto.
-From SpyneV Require Import C06.Spec C06.LeafProofs C06.SeqProofs.
+From SpyneV Require Import C06.Spec C06.Docs C06.LeafProofs C06.SeqProofs.
 Import ListNotations.
 Open Scope Z_scope.
 
 (* ------------------------------------------------------------------ a class with its ancestors *)
-Fixpoint chain_fuel (fuel : nat) (U : univ) (c : cid) : option (list (text * item)) :=
-  match fuel with
-  | O => None
-  | S k =>
-      match get_klass U c with
-      | None => None
-      | Some cl =>
-          let own := map (pair (k_ns cl)) (k_items cl) in
-          match k_parent cl with
-          | None => Some own
-          | Some p => match chain_fuel k U p with Some pl => Some (pl ++ own) | None => None end
-          end
-      end
-  end.
-
-Definition L_flds (L : list (text * item)) : list (text * fld) :=
-  flat_map (fun p => tagged (fst p) (item_flds (snd p))) L.
-
 Lemma L_flds_app a b : L_flds (a ++ b) = L_flds a ++ L_flds b.
 Proof. unfold L_flds. apply flat_map_app. Qed.
 Lemma L_parts_app U a b : L_parts U (a ++ b) = L_parts U a ++ L_parts U b.
@@ -192,8 +174,6 @@ Section Resolve.
 End Resolve.
 
 (* ------------------------------------------------------------------ shape of what to_parent writes *)
-Definition node_name (e : xnode) : text := match e with XElt _ n _ _ _ => n | XOther => [] end.
-
 Lemma mapM_ok {A B} (f : A -> out B) l ys : mapM f l = Ok ys -> Forall2 (fun x y => f x = Ok y) l ys.
 Proof.
   revert ys. induction l as [|x r IH]; intros ys H; cbn in H.
